@@ -1,20 +1,20 @@
-\* regression config: embedded_objects not reset by finally (must violate Reusable)
+\* regression config: MOFWBEMConnection.CreateClass checks only that the superclass exists: class C : Base; class D : C; class C : D is accepted, instance of C never ends (must violate ImplRefinesReq: RecursionError)
 SPECIFICATION Spec
 CONSTANTS
   MaxProd = 1
   MaxDepth = 6
-  OnlyKinds = {"instance"}
+  OnlyKinds = {"class"}
   IncludeGuard = TRUE
   NsNoneCheck = TRUE
   HexBounds = TRUE
   CtxBounds = TRUE
   ValueWrapped = TRUE
   RepoWrapped = TRUE
-  EmbFinally = FALSE
+  EmbFinally = TRUE
   RestoreOnReturn = TRUE
   EmbRestoreAll = TRUE
   SuperCheckFirst = TRUE
-  AncestryWalk = TRUE
+  AncestryWalk = FALSE
   GuardCanonical = TRUE
   RegisterAfterCreate = TRUE
   NsCachesInit = TRUE
